@@ -1745,6 +1745,8 @@ class Interp:
         return [(True, s_true), (False, s_false)]
 
     def truthiness(self, v: AVal, st: State, test):
+        if getattr(self.hooks, 'record_truth_tests', False):
+            st.trace.append(Event('truth-test', (v, test), test, st.frame.func))
         if isinstance(v, K):
             val = v.v
             if isinstance(val, (Record, EnumMember, Ref)):
